@@ -623,3 +623,5 @@ B('C18', 'eq_simplify negated case with the test the wrong way round', 'smt/veri
 B('C04', 'eq_simplify reflexive case with the test the wrong way round', 'smt/veriT/verit_macro.py',
   "            if lhs.lhs == lhs.rhs and rhs == true:\n                return Thm(arg)\n            elif rhs == false and lhs.lhs.is_constant()",
   "            if lhs.lhs != lhs.rhs and rhs == true:\n                return Thm(arg)\n            elif rhs == false and lhs.lhs.is_constant()", 'C04.M10', 'verit_eq_simplify')
+B('C18', 'connective_def compares one unpacked part twice and the other never', 'smt/veriT/verit_macro.py',
+  "                if q1 == p1 and o1 == p2 and p2 == q2 and p1 == o2:", "                if q1 == p1 and o2 == p1 and p2 == q2 and p1 == o2:", 'C18.R11', 'ConnectiveDefMacro.eval')
